@@ -47,6 +47,7 @@ type Case struct {
 	Fuel    int32           `json:"fuel"`
 	TwoRT   bool            `json:"two_runtimes_shared_cache"`
 	Recreat bool            `json:"fresh_instance_afterwards"`
+	Lazy    bool            `json:"lazy_instantiation"` // other instances are created at their first step, not up front
 }
 
 type obs struct {
@@ -148,19 +149,27 @@ func RunCase(c *Case) (string, []string, bool) {
 		so, se bytes.Buffer
 	}
 	slots := make([]*slot, c.N)
-	for i := range slots {
+	mk := func(i int) {
 		sl := &slot{}
 		s := sB
 		if i == 0 {
 			s = sA
 		}
-		sl.in = s.Instantiate(ctx, wazero.NewModuleConfig().WithStdout(&sl.so).WithStderr(&sl.se))
 		slots[i] = sl
+		sl.in = s.Instantiate(ctx, wazero.NewModuleConfig().WithStdout(&sl.so).WithStderr(&sl.se))
+	}
+	for i := range slots {
+		if i == 0 || !c.Lazy {
+			mk(i)
+		}
 	}
 	othersMutated := false
 	for _, st := range c.Steps {
 		if st.Inst >= c.N {
 			continue
+		}
+		if slots[st.Inst] == nil {
+			mk(st.Inst) // instantiated in the middle of the history
 		}
 		sl := slots[st.Inst]
 		if st.Close {
@@ -182,6 +191,9 @@ func RunCase(c *Case) (string, []string, bool) {
 	}
 	got := obs{slots[0].in.Finish(ctx), slots[0].so.String(), slots[0].se.String()}
 	for i := 1; i < c.N; i++ {
+		if slots[i] == nil {
+			continue
+		}
 		if tr := slots[i].in.Finish(ctx); tr.HasKind(wz.KInternal) {
 			return fmt.Sprintf("internal failure in instance %d: %v %v", i, tr.Inst, tr.Steps), nil, false
 		}
@@ -213,6 +225,9 @@ func RunCase(c *Case) (string, []string, bool) {
 	}
 	if c.TwoRT {
 		labels = append(labels, "two-runtimes-shared-cache")
+	}
+	if c.Lazy {
+		labels = append(labels, "instances-created-mid-history")
 	}
 	if c.Other != nil {
 		labels = append(labels, "different-module")
@@ -263,6 +278,7 @@ func genModule(t *rapid.T, hostMod string) *wasmgen.Module {
 	cfg.MaxDepth = rapid.IntRange(2, 4).Draw(t, "maxdepth")
 	cfg.WASI = true
 	cfg.AllowStart = true
+	cfg.SegmentRich = rapid.Bool().Draw(t, "segrich")
 	return wasmgen.Generate(t, cfg)
 }
 
@@ -279,6 +295,7 @@ func prop(t *rapid.T) {
 		c.Other = genModule(t, "env2")
 	}
 	c.Recreat = c.Other == nil && rapid.Bool().Draw(t, "fresh")
+	c.Lazy = rapid.Bool().Draw(t, "lazy")
 	om := m
 	if c.Other != nil {
 		om = c.Other
